@@ -10,6 +10,7 @@ layer, the Err of every Result<_, VfsError|io::Error> can leave an operation onl
        the return place is reachable except through a listed escape edge (walk iterators: a silent
        `None` counts as success).
 """
+import re
 from ..terms import get_tracer, fmt, strip, short, call_of, alts, walk
 from ..inter import Inter
 from ..pathflow import World
@@ -202,6 +203,9 @@ def run_world(facts, rep, w, floors):
             n_discards += 1
             rep.fail("R20.1", root.id, "%s passed as a function value" % sh,
                      "error-discarding combinator used as a function value", line)
+        for (bb, nm, line) in rf.overwritten_results():
+            rep.fail("R20.1", root.id, "Result `%s` is assigned again while it may hold an Err" % nm,
+                     "the earlier failure is overwritten before anything acts on it: the operation goes on and can report success", line)
         for (bb, sh, line) in rf.unused_results():
             rep.fail("R20.1", root.id, "unused result of %s" % sh, "a Result carrying VfsError/io::Error is dropped unread", line)
         # count tracked results (coverage)
@@ -282,6 +286,33 @@ class _PfxRep:
         self._rep.assume(t)
 
 
+def tolerated_kind_sites(facts, rep, rule, D):
+    """who may construct the kind create_dir_all swallows: `VfsErrorKind::DirectoryExists` is built only inside a backend's
+    create_dir (where Tables M/U/O tie it to a positive directory test) — not in an error conversion, a wrapper or any
+    other operation, where it would turn that operation's failure into a tolerated one"""
+    n = 0
+    for b in facts.bodies:
+        if b.file.startswith("src/test_macros") or "::tests::" in b.id or "::test" in b.id.split("::")[0]:
+            continue
+        for blk in b.blocks:
+            if blk.cleanup:
+                continue
+            for st in blk.stmts:
+                if st.kind == "assign" and st.rv.kind == "agg" and st.rv.agg.get("adt") == "error::VfsErrorKind" and \
+                        st.rv.agg.get("variant") == "DirectoryExists":
+                    owner = re.sub(r"(::\{closure#\d+\})+$", "", D.owner_id(b))
+                    ob_ = facts.body(owner) if hasattr(facts, "body") else None
+                    name = owner.rsplit("::", 1)[-1]
+                    in_trait = ob_ is not None and ob_.impl and ob_.impl.get("trait") and \
+                        ob_.impl["trait"].rsplit("::", 1)[-1] in ("FileSystem", "AsyncFileSystem")
+                    ok = name == "create_dir" and bool(in_trait)
+                    n += 1
+                    rep.ob(rule, owner, "DirectoryExists is built only by a backend's create_dir", ok, "" if ok else
+                           "%s builds VfsErrorKind::DirectoryExists outside a backend's create_dir: create_dir_all tolerates that kind, so "
+                           "a failure classified here (e.g. every io AlreadyExists) is reported as success with nothing created" % b.id, st.line)
+    return n
+
+
 def run(facts, rep, tier, ctx):
     ws = World(facts, False)
     run_world(facts, rep, ws, {"results": 60, "err_edges": 5, "kind_arms": 4})
@@ -314,6 +345,8 @@ def run(facts, rep, tier, ctx):
                 k += 1
                 rep.ob(tag + "R20.6", o["fn"], d, o["ok"], o["detail"], o["loc"])
     rep.floor("tolerated-kind construction sites", k, 6)
+    k2 = tolerated_kind_sites(facts, rep, "R20.6", D)
+    rep.floor("DirectoryExists construction sites (whole crate)", k2, 6)
     # R20.7 the async walk: a failed per-entry future is not kept in its slot (polling it again panics), an error item is
     # yielded once (typestate of poll_next, shared with C15 R15.4)
     if wa.present():
